@@ -136,8 +136,8 @@ class Check:
             "wall_s": round(time.time() - self.t0, 3),
             "violations": len(new),
         }
-        os.makedirs(os.path.join(VERIF, "evidence"), exist_ok=True)
-        path = os.path.join(VERIF, "evidence", self.prop + ".json")
+        os.makedirs(_evidence_dir(), exist_ok=True)
+        path = os.path.join(_evidence_dir(), self.prop + ".json")
         tmp = path + ".tmp%d" % os.getpid()
         with open(tmp, "w") as fh:
             json.dump(ev, fh, indent=1)
@@ -152,10 +152,17 @@ class Check:
         return 1 if new else 0
 
 
+def _evidence_dir():
+    """/verif/evidence describes /repo only: a development run against another tree (TSG_REPO) writes under .work"""
+    if os.environ.get("TSG_REPO") and os.path.realpath(os.environ["TSG_REPO"]) != "/repo":
+        return os.path.join(VERIF, ".work", "evidence-dev")
+    return os.path.join(VERIF, "evidence")
+
+
 def write_broken_evidence(prop, tier, msg, t0):
     ev = {"property_id": prop, "tier": tier, "seed": 0, "level": "other",
           "coverage": {"explanation": "ANALYSIS BROKEN (exit 2), no verdict: " + msg, "obligations": 0, "discharged": 0},
           "wall_s": round(time.time() - t0, 3), "violations": 0}
-    os.makedirs(os.path.join(VERIF, "evidence"), exist_ok=True)
-    with open(os.path.join(VERIF, "evidence", prop + ".json"), "w") as fh:
+    os.makedirs(_evidence_dir(), exist_ok=True)
+    with open(os.path.join(_evidence_dir(), prop + ".json"), "w") as fh:
         json.dump(ev, fh, indent=1)
